@@ -358,7 +358,9 @@ def verify_misc_cmd(E, prop, mode):
                 n = z3.Int("n_cmds")
                 st.assume(n >= 0)
                 cmds = ghost.new_bytesarr(st, z3.Const("cmds", ghost.BARR), n)
-                term = CRLF if reader == "readline" else z3.StringVal("\n\r\nEND\r\n")
+                # raw_command's default end token is CRLF; the 7-byte ElastiCache token needs a minute of solver time for
+                # its uniqueness cut and is exercised in the thorough tier (and by C19)
+                term = CRLF if (reader == "readline" or getattr(E, "tier", "quick") != "thorough") else z3.StringVal("\n\r\nEND\r\n")
                 L, Rest, unit_facts = lines_model(n, term)
                 noreply = BoolV(nr == "noreply")
                 sent_total = ghost.join_arr(z3.Const("cmds", ghost.BARR), n)
@@ -775,6 +777,11 @@ def misc_contract(E, st, args, kwargs, selfv, site):
     b = dict(zip(names, args))
     b.update(kwargs)
     cmds = b["cmds"]
+    from pyvc.expr import OneShotV
+    if isinstance(cmds, OneShotV):
+        # requires: cmds is iterated twice by _misc_cmd (join, then one read per command): a one-shot iterable breaks it
+        E.oblige("%s%s/requires(cmds-is-a-re-iterable-list)%s" % (E.oid_prefix, short(C + "._misc_cmd"), E.case_suffix), st, z3.BoolVal(False),
+                 kind="pre", func=C + "._misc_cmd")
     items = E.iter_items(cmds, st)
     st.ghost.setdefault("misc_calls", []).append({"cmds": cmds, "items": items, "noreply": b["noreply"], "end_tokens": b.get("end_tokens", NONE),
                                                   "cmd_name": b["cmd_name"], "sync_at_call": sync(E, st, selfv)})
@@ -985,3 +992,79 @@ def result_table(E, s, meth, val, nr, lines):
             return z3.And(z3.Not(nr), L0 != z3.StringVal("NOT_FOUND"),
                           z3.Implies(z3.InRe(L0, DIGITS), val.t == z3.StrToInt(L0)))
     return z3.BoolVal(False)
+
+
+# ------------------------------------------------------------------ delete_many
+
+def verify_delete_many(E, mode="exception"):
+    q = C + ".delete_many"
+    install_env(E, mode)
+    E.contracts[B + ":check_key_helper"] = check_key_contract
+    E.contracts[C + "._misc_cmd"] = misc_contract
+    for nlabel, nrv in noreply_cases():
+        E.case_suffix = "/" + nlabel
+        st = State()
+        set_faults(st, mode)
+        me, sock0 = mk_client(st, True)
+        f = st.heap[me.ref]
+        n = z3.Int("n_keys")
+        st.assume(n >= 0)
+        key_elem = mk_key_elem("DK")
+        keys = ghost.new_pyarr(st, z3.Const("keys", ghost.PARR), n, elem=key_elem)
+        nr_eff = f["default_noreply"].t if isinstance(nrv, NoneV) else nrv.t
+        Kb, Ku = z3.Function("DK_bytes", I, S), z3.Function("DK_utf8", I, S)
+        is_b = z3.Function("DK_is_bytes", I, z3.BoolSort())
+        orig = keys.elem
+        keys.elem = lambda i: [(v, cons + [is_b(i) == z3.BoolVal(isinstance(v, BytesV))], lab) for v, cons, lab in orig(i)]
+
+        def spec(j):
+            k = z3.Concat(f["key_prefix"].t, z3.If(is_b(j), Kb(j), Ku(j)))
+            return z3.Concat(z3.StringVal("delete "), k, z3.If(nr_eff, z3.StringVal(" noreply"), z3.StringVal("")), CRLF), k
+        st.ghost["misc_calls"] = []
+        wid, sid = pid(E, "wire", q), pid(E, "sync", q)
+
+        def at_call(E_, s, c, ncalls):
+            cm = c["cmds"]
+            nrp = E_.truth(c["noreply"], s)
+            nrp = z3.BoolVal(nrp) if isinstance(nrp, bool) else nrp
+            if not isinstance(cm, ghost.BytesArrV) or ncalls != 1:
+                E_.oblige("%s/one-exchange-with-the-list-of-commands%s" % (wid, E_.case_suffix), s, z3.BoolVal(False), func=q)
+                return
+            a, ln = cm.get(s)
+            j = z3.Int("j")
+            goal = z3.And(ln == n, nrp == nr_eff, z3.ForAll([j], z3.Implies(z3.And(0 <= j, j < n), a[j] == spec(j)[0])))
+            E_.oblige("%s/commands-are-'delete <key>[ noreply]'-one-per-key-in-order%s" % (wid, E_.case_suffix), s, goal, func=q)
+            E_.oblige("%s/reply-expected-iff-no-noreply-marker%s" % (sid, E_.case_suffix), s, goal, func=q)
+            E_.oblige("%s/Sync-at-exchange%s" % (sid, E_.case_suffix), s, c["sync_at_call"], func=q)
+        st.ghost["at_misc_call"] = at_call
+
+        def mk_cmds(E_, s, nm):
+            return [(ghost.new_bytesarr(s, z3.Const(fresh_name("cmds"), ghost.BARR), z3.Int(fresh_name("ncmds"))), [])]
+
+        def inv(E_, s, i):
+            cm = s.env.get("cmds")
+            if isinstance(cm, ghost.BytesArrV):
+                a, ln = cm.get(s)
+            elif isinstance(cm, ListV) and len(s.heap[cm.ref]) == 0:
+                a, ln = None, z3.IntVal(0)
+            else:
+                return [("kinds", z3.BoolVal(False))]
+            j = z3.Int("j")
+            parts = [("one-command-per-key", ln == i), ("no-exchange-before-all-keys-are-validated", z3.BoolVal(len(s.ghost["misc_calls"]) == 0))]
+            if a is not None:
+                parts.append(("commands-so-far", z3.ForAll([j], z3.Implies(z3.And(0 <= j, j < i), a[j] == spec(j)[0]))))
+            return parts
+        E.loop_specs[(q, 0)] = LoopSpec(inv, vars={"cmds": mk_cmds}, shape="for $0 in $1")
+        for o in E.run_function(q, st, [keys], {"noreply": nrv}, selfv=me):
+            s = o.st
+            calls = s.ghost["misc_calls"]
+            if o.kind == "raise" and o.val.cls == "MemcacheIllegalInputError":
+                E.oblige("%s/post@raise(input-error:nothing-sent)%s" % (wid, E.case_suffix), s, z3.BoolVal(len(calls) == 0), func=q)
+            if o.kind == "return":
+                E.oblige("%s/post@ret(Sync)%s" % (sid, E.case_suffix), s, sync(E, s, me), func=q)
+                E.oblige("%s/post@ret(exchange-happened-unless-no-keys)%s" % (wid, E.case_suffix), s, z3.Or(n == 0, z3.BoolVal(len(calls) == 1)), func=q)
+                E.oblige("%s/post@ret(documented-result:True)%s" % (pid(E, "result", q), E.case_suffix), s,
+                         o.val.t if isinstance(o.val, BoolV) else z3.BoolVal(False), func=q)
+            elif is_subclass(o.val.cls, "Exception"):
+                E.oblige("%s/post@raise(Exception:Sync)%s" % (sid, E.case_suffix), s, sync(E, s, me), func=q)
+    E.case_suffix = ""
